@@ -23,6 +23,7 @@ RULE = ('uncompressed R-produced messages with 2-5 subsets whose replication cou
         'differ per subset; templates frequently end inside an operator construct; all permutations '
         'for n<=3 (thorough n<=4), sampled beyond; non-trivial when the subsets differ in length or '
         'the template leaves an operator open / uses a bitmap; distinct by SHA-1 of the joint bytes; same-layout-different-bitmap subsets; for scoped templates the joint decode is repeated with template compilation on')
+RULE += '; added with rounds 10-12: object histories with fewer subsets selected by lowering the count; twins'
 ASSUMPTIONS = ['R concatenates per-subset bit strings, each produced from fresh registers (that is the '
                'FM-94 reading the property states)', 'comparison is between executions of the real code; '
                'R only supplies bytes']
